@@ -585,7 +585,12 @@ func checkWrite(c *run.Case, w *run.Worker, engine string, s *wscript, v verdict
 		w.Count("write_stored_"+compName(s.comp), 1)
 	case "invalid":
 		cls := strings.Join(v.defects, "+")
-		w.Count("write_invalid_"+cls, 1)
+		for _, d := range v.defects {
+			w.Count("write_invalid_with_"+d, 1)
+		}
+		if len(v.defects) == 1 {
+			w.Count("write_invalid_only_"+cls, 1)
+		}
 		w.Distinct(engine + "|" + compName(s.comp) + "|" + cls)
 		if okRPC {
 			c.Violation(site+":accepted:"+cls, "Write succeeded for a script that must be rejected (%s); in backend=%v", cls, has)
